@@ -66,4 +66,9 @@ func init() {
 			Rules: []*RuleResult{c.rule("R19", ruleR19)},
 			Explain: "partial"}
 	}}
+	properties["C08"] = propDef{run: func(c *Ctx) *PropertyRun {
+		return &PropertyRun{Level: "other", Trusted: trustedBase, Assume: commonAssumptions,
+			Rules: []*RuleResult{c.rule("R14", ruleR14)},
+			Explain: "partial"}
+	}}
 }
